@@ -395,6 +395,12 @@ func vfC04Consume(which string, plan []vfC04Plan, open func() (*Iter, *framer, e
 		return
 	}
 	rows := []interface{}{}
+	// a driver that mis-parses may report billions of rows; with no columns its own loops
+	// would then spin without consuming anything: refuse (shows up as a mismatch)
+	if iter.NumRows() > vfC04MaxRows {
+		res["err"] = fmt.Sprintf("harness: refusing to iterate, NumRows=%d", iter.NumRows())
+		return
+	}
 	limit := iter.NumRows() + 2
 	var cerr error
 	switch which {
@@ -447,6 +453,8 @@ func vfC04Consume(which string, plan []vfC04Plan, open func() (*Iter, *framer, e
 	res["rows"] = rows
 	return
 }
+
+const vfC04MaxRows = 64
 
 var vfC04Consumers = []string{"c_rawscan", "c_rawscanner", "c_ptrscan", "c_ptrscanner", "c_mapscan", "c_slicemap"}
 
